@@ -23,36 +23,36 @@ C = {}
 def add(pid, stages, level, text, ref, note, technique, engine):
     C[pid] = dict(stages=stages, level=level, text=text, ref=ref, note=note, technique=technique, engine=engine)
 
-add('C01', ['C01', 'C01N'], 'exploration',
-    "Stateless exploration of a real cluster (3-4 real server.Server nodes: shards director, leader/follower controllers, WAL, Pebble on a crash-simulating filesystem; the real coordinator ShardController with a real StatusResource over the memory metadata provider; in-process transports) under the cooperative scheduler: 2 concurrent client writers (two-operation requests, with secondary-index entries) plus one fault per scenario (leader crash, crash+restart, spurious failover, swap of a follower / of the leader, swap with unreachable members, coordinator crash mid-election, lost NewTerm / BecomeLeader answers, the answer of any one coordinator RPC lost (which one is enumerated), a replication connection dropping under any one message (which one is enumerated), BecomeLeader timing out on a partitioned candidate, rolling isolation over four terms, swap + restore from snapshot + the new node leading); every schedule with <=1 (thorough <=2) non-default coarse scheduling choices; every acknowledged write must be present on every node that becomes leader later and on the final leader after healing.",
+add('C01', ['C01', 'C01W', 'C01N'], 'exploration',
+    "Stateless exploration of a real cluster (3-4 real server.Server nodes: shards director, leader/follower controllers, WAL, Pebble on a crash-simulating filesystem; the real coordinator ShardController with a real StatusResource over the memory metadata provider; in-process transports) under the cooperative scheduler: 2 concurrent client writers (two-operation requests, with secondary-index entries) plus one fault per scenario (leader crash, crash+restart, spurious failover, swap of a follower / of the leader, swap with unreachable members, coordinator crash mid-election, lost NewTerm / BecomeLeader answers, the answer of any one coordinator RPC lost (which one is enumerated), a replication connection dropping under any one message (which one is enumerated), BecomeLeader timing out on a partitioned candidate, rolling isolation over four terms, swap + restore from snapshot + the new node leading); every schedule with <=1 (thorough <=2) non-default coarse scheduling choices; every acknowledged write must be present on every node that becomes leader later and on the final leader after healing. WAL sync stage (lib/walh): on a real WAL with SyncData on, an appender, a thread calling Sync and the WAL's own group-sync thread under the cooperative scheduler, the flush of the segment being a scheduling point: the offset reported as synced, and every completed sync (what a follower acknowledges, what a leader counts as stored), is covered by a flush that started after the entry was appended.",
     "DESIGN.md §2.5, §3 C01", CLUSTER_NOTE, T_SCHED + " over real servers and coordinator with crash/fault injection", 'sched')
 add('C02', ['C02', 'C02S', 'C02N', 'C02L'], 'exploration',
     "Stage 1: same cluster executions with clients issuing colliding puts and gets; invoke/return stamped by scheduler step; per-key linearizability decided by porcupine (unknown outcomes may take effect once or never); stale reads only from deposed leaders; no read may return a value that is absent from the final committed log. Stage 2: fine-grained schedules of writers colliding on one key on a real RF=3 leader: the state reads are served from equals the fold of the committed log, responses match their requests.",
     "DESIGN.md §3 C02", CLUSTER_NOTE, T_SCHED + " + porcupine linearizability checking of every explored history", 'sched')
-add('C03', ['C03', 'C03F', 'C03L'], 'exploration',
-    "Stage 1: same cluster executions; at the instant a follower hands Ack(o) to a term-T stream its synced log must equal the term-T leader's log at every offset <= o (shadow logs recorded at the WAL seam); committed prefixes of all replicas are compared with the final leader at the end. Stage 2: explicit-state search of the follower as a protocol state machine (every sequence of 13 protocol events - new-term requests, appends of current / stale terms, truncation and its re-delivery, complete / interrupted / stale-term snapshot transfers, restart, crash - up to the depth, on a real follower controller): acknowledged entries stay stored with their leader's entry, the database is the fold of what the node holds.",
+add('C03', ['C03', 'C03S', 'C03F', 'C03L'], 'exploration',
+    "Stage 1: same cluster executions; at the instant a follower hands Ack(o) to a term-T stream its synced log must equal the term-T leader's log at every offset <= o (shadow logs recorded at the WAL seam); committed prefixes of all replicas are compared with the final leader at the end. Schedule stage on the leader (h/c03s): one election of a real leader controller against two checking followers from a preloaded two-term log (with and without an uncommitted tail; one follower empty and restored from a snapshot, or holding a longer tail of the older term), every schedule of BecomeLeader, follower cursors, snapshot sender and ack receivers up to the deviation bound; the followers check every truncation, append and snapshot and must end with exactly the leader's log. Stage 2: explicit-state search of the follower as a protocol state machine (every sequence of 13 protocol events - new-term requests, appends of current / stale terms, truncation and its re-delivery, complete / interrupted / stale-term snapshot transfers, restart, crash - up to the depth, on a real follower controller): acknowledged entries stay stored with their leader's entry, the database is the fold of what the node holds.",
     "DESIGN.md §3 C03, §7", CLUSTER_NOTE, T_SCHED + " + " + T_FSM, 'sched+fsm')
 add('C04', ['C04', 'C04S', 'C04F', 'C04N'], 'exploration',
     "Stage 1: stateless exploration of NewTerm(T+1) racing with in-flight client writes on a real leader controller (RF=3, acknowledging scripted followers) and with in-flight appends and pending WAL syncs on a real follower controller: every schedule with <=2 (thorough <=3) non-default scheduling choices at every lock/atomic/channel point; reported head == end of the node's log at quiescence, no ack / acknowledged write beyond the reported head, old-term writes and appends refused after the answer. Schedule stage on the follower alone (h/c04s): one in-flight request of the deposed leader (append, truncation, start of a snapshot transfer) racing with NewTerm on a follower holding three acknowledged entries; whichever is served first, the log must end where the NewTerm answer said. Stage 2: explicit-state search of the follower as a protocol state machine (13 protocol events, see C03): no acknowledgement, append, truncation or snapshot of an older term changes a fenced node; the reported head is the end of its log.",
     "DESIGN.md §3 C04", SCHED_NOTE + " Peers are scripted; the director path is exercised by the cluster harness of C05.", T_SCHED + " + " + T_FSM, 'sched+fsm')
-add('C05', ['C05', 'C05F', 'C05N'], 'exploration',
-    "Cluster harness with election-safety monitors evaluated at every scheduling point and at every coordination RPC (scenarios as C01 plus lost BecomeLeader answer and coordinator crash right after BecomeLeader): at most one LEADER per term and at most one node told to lead a term; node terms never decrease (also across crash+restart on the crash-simulating FS); every NewTerm/BecomeLeader carries a term that is durable in the metadata store and not below any term sent before (also across coordinator crash+restart); BecomeLeader only after a fenced majority, to an ensemble member whose head is maximal among the fenced ensemble members, with followers from the stored ensemble only. Stage 2 (node side): explicit-state search of the follower as a protocol state machine (13 protocol events, see C03): the term a node has answered for never decreases across restarts, crashes and snapshot transfers.",
+add('C05', ['C05', 'C05S', 'C05F', 'C05N'], 'exploration',
+    "Cluster harness with election-safety monitors evaluated at every scheduling point and at every coordination RPC (scenarios as C01 plus lost BecomeLeader answer and coordinator crash right after BecomeLeader): at most one LEADER per term and at most one node told to lead a term; node terms never decrease (also across crash+restart on the crash-simulating FS); every NewTerm/BecomeLeader carries a term that is durable in the metadata store and not below any term sent before (also across coordinator crash+restart); BecomeLeader only after a fenced majority, to an ensemble member whose head is maximal among the fenced ensemble members, with followers from the stored ensemble only. Schedule stage on the coordinator (h/c05s): the real coordinator.ConfigChanged (compare-and-set of the whole status document) racing with the status writes of one or two elections of another shard, every schedule up to the deviation bound: the status a restarted coordinator loads holds the term that was stored before NewTerm was sent. Stage 2 (node side): explicit-state search of the follower as a protocol state machine (13 protocol events, see C03): the term a node has answered for never decreases across restarts, crashes and snapshot transfers.",
     "DESIGN.md §3 C05", CLUSTER_NOTE, T_SCHED + " over real servers and coordinator with crash/fault injection + " + T_FSM, 'sched+fsm')
 add('C06', ['C06', 'C06S'], 'model_checking',
     "Stage 1: differential explicit-state search: every history of write requests (puts, conditional puts, deletes, range deletes below/above the threshold, session records, sequence puts, secondary indexes) up to the depth bound is applied through six routes (live, replay on a second DB, close+reopen at every split, crash on a strict in-memory FS + replay from the stored commit offset, snapshot with several chunk sizes + replay, real leader) and the full ordered dumps must be identical. Stage 2: schedule exploration of the real cluster (client cancellation, failed BecomeLeader, rolling isolation, crash+restart, spurious failover): at the end every replica's database equals the fold of the final leader's log up to the commit offset stored in that database.",
     "DESIGN.md §3 C06, §10", "Real kv.DB / Pebble; depth and alphabet bounded; differential oracle (no hand-written expected values). " + CLUSTER_NOTE, T_SEQX + ", differential between application routes + " + T_SCHED, 'seqx+sched')
-add('C07', ['C07', 'C07S', 'C07N'], 'fault_enumeration',
-    "For histories of writes interleaved with flush-inducing events, every filesystem-operation index of the run is a crash point on Pebble's strict in-memory FS: the reopened DB must equal the fold of entries 0..c for its stored commit offset c, terms acknowledged before the crash survive, replay from c+1 reaches the uncrashed state, and commit offsets are written exactly once in order. Stage 2: schedule exploration of the real leader write pipeline (2-3 writers, WAL sync thread, cursors, ack receivers): every batch commit of the commit-offset record seen at the kv.Factory seam is previous+1 and every committed entry is applied.",
-    "DESIGN.md §2.4 E3b, §3 C07", "Pebble's StrictMem semantics are the crash model; WAL side: everything appended survives or only synced entries survive.", "exhaustive crash-point enumeration over the real storage engine on a crash-simulating filesystem + " + T_SCHED, 'e3+sched')
+add('C07', ['C07', 'C07S', 'C07F', 'C07N'], 'fault_enumeration',
+    "For histories of writes interleaved with flush-inducing events, every filesystem-operation index of the run is a crash point on Pebble's strict in-memory FS: the reopened DB must equal the fold of entries 0..c for its stored commit offset c, terms acknowledged before the crash survive, replay from c+1 reaches the uncrashed state, and commit offsets are written exactly once in order. Stage 2: schedule exploration of the real leader write pipeline (2-3 writers, WAL sync thread, cursors, ack receivers): every batch commit of the commit-offset record seen at the kv.Factory seam is previous+1 and every committed entry is applied. Protocol-event stage on the follower (h/c07f, lib/ffsm): every sequence of 13 follower protocol events up to the depth from a preloaded state (two entries held, one applied): after every event the follower's database is the fold of the entries it holds up to the commit offset stored in it.",
+    "DESIGN.md §2.4 E3b, §3 C07", "Pebble's StrictMem semantics are the crash model; WAL side: everything appended survives or only synced entries survive.", "exhaustive crash-point enumeration over the real storage engine on a crash-simulating filesystem + " + T_SCHED + " + " + T_FSM, 'e3+sched+fsm')
 add('C08', ['C08'], 'exploration',
     "Stateless exploration of the real leader controller (real WAL, real Pebble DB, real quorum tracker and follower cursors) with scripted followers: every schedule with <=2 (thorough <=3) non-default scheduling choices of 2-3 concurrent writers, the WAL sync thread, cursors and ack receivers; oracle on results, WAL contiguity, apply order, response identity, and commit/head offsets at every scheduling point.",
     "DESIGN.md §2.3, §3 C08", SCHED_NOTE + " Followers are scripted.", T_SCHED, 'sched')
 add('C09', ['C09'], 'model_checking',
     "Explicit-state BFS over every operation sequence (append sync/async, sync, truncate at every distance, clear, reopen, jump-append, trim with 2 cutoffs x 3 commit offsets) up to depth 5 (quick) / 8 (thorough) on the real WAL for 3-4 segment/payload/sync configurations, each step compared with a list model through the full public read API plus white-box offsets.",
     "DESIGN.md §3 C09", "Real WAL code on tmpfs; list model in Go; depth and alphabet bounded as stated; timestamps monotone in the offset.", T_SEQX, 'seqx')
-add('C10', ['C10'], 'fault_enumeration',
-    "Enumeration of crash images (every subset of dirty pages, every torn-write prefix of the unsynced tail, index file absent/empty/every prefix, newest segment present/absent) and corruption images (every header byte x value set, length field boundary values, payload and index bytes, index truncations) of short WAL histories for both on-disk formats and every commit offset; each image is reopened and read through the real WAL.",
-    "DESIGN.md §2.4 E3a, §3 C10", "Images are built from real WAL runs on tmpfs; the durable image is what the code had msync'ed.", "exhaustive fault enumeration (crash images and byte corruptions) replayed against the real recovery code", 'e3')
+add('C10', ['C10', 'C10W'], 'fault_enumeration',
+    "Enumeration of crash images (every subset of dirty pages, every torn-write prefix of the unsynced tail, index file absent/empty/every prefix, newest segment present/absent) and corruption images (every header byte x value set, length field boundary values, payload and index bytes, index truncations) of short WAL histories for both on-disk formats and every commit offset; each image is reopened and read through the real WAL. WAL sync stage (lib/walh): on a real WAL with SyncData on, an appender, a thread calling Sync and the WAL's own group-sync thread under the cooperative scheduler, the flush of the segment being a scheduling point: the offset reported as synced, and every completed sync (what a follower acknowledges, what a leader counts as stored), is covered by a flush that started after the entry was appended.",
+    "DESIGN.md §2.4 E3a, §3 C10", "Images are built from real WAL runs on tmpfs; the durable image is what the code had msync'ed.", "exhaustive fault enumeration (crash images and byte corruptions) replayed against the real recovery code + stateless model checking of the WAL's group-sync thread (controlled cooperative scheduler, deviation-bounded DFS over schedules)", 'e3+sched')
 add('C11', ['C11'], 'exploration',
     "Exhaustive input enumeration: comparator laws on all pairs and triples of a 6-symbol key universe up to length 3, the Pebble comparer contract on all pairs, and end-to-end reads (exact get, floor/ceiling/lower/higher, scans in both directions) on the real engine for every pair/triple of keys stored one per sstable block, after flush and after compaction, against a sorted reference; plus large hierarchical data sets.",
     "DESIGN.md §3 C11", "Pebble's own correctness for a lawful comparer is trusted; key universe and data-set sizes bounded as stated.", "exhaustive enumeration of a bounded input universe against a sorted reference on the real storage engine", 'enum')
@@ -74,9 +74,9 @@ add('C16', ['C16', 'C16S'], 'model_checking',
 add('C17', ['C17', 'C17S'], 'model_checking',
     "Stage 1: explicit-state search of write histories with subscriber reads from every offset, replica reconnects and trimming rounds on a real kv.DB against a model diff. Stage 2: schedule exploration of a GetNotifications subscriber (with disconnect/resume) racing with writers on a real RF=1 leader: exactly one batch per committed request, in order, none lost at quiescence.",
     "DESIGN.md §3 C17", SCHED_NOTE, T_SEQX + " + " + T_SCHED, 'seqx+sched')
-add('C18', ['C18'], 'model_checking',
-    "Explicit-state search over sequences of cluster-config changes through the real ApplyClusterChanges / assignment computation / client ShardManager.update code: every published namespace must partition [0, 2^32-1] exactly, shard ids unique and never reused, client routing agrees with the published owner at every range boundary; GenerateShards alone for every shard count up to the bound.",
-    "DESIGN.md §3 C18", "Real coordinator and client routing code; namespaces, servers and depth bounded.", T_SEQX, 'seqx')
+add('C18', ['C18', 'C18S'], 'model_checking',
+    "Explicit-state search over sequences of cluster-config changes through the real ApplyClusterChanges / assignment computation / client ShardManager.update code: every published namespace must partition [0, 2^32-1] exactly, shard ids unique and never reused, client routing agrees with the published owner at every range boundary; GenerateShards alone for every shard count up to the bound. Schedule stage (h/c18s): one or two clients subscribing to a node's shard assignments (real RegisterForUpdates, the client's Send a scheduling point) racing with one or two pushes of a new map, every schedule up to the deviation bound: a client that stays connected holds the node's current map once nothing is in flight, or it has been cut off.",
+    "DESIGN.md §3 C18", "Real coordinator and client routing code; namespaces, servers and depth bounded.", T_SEQX + " + " + T_SCHED, 'seqx+sched')
 add('C19', ['C19'], 'exploration',
     "Exhaustive enumeration of clusters (1-5 servers, zone/rack label assignments), anti-affinity policies, replication factors, start indexes and existing placements through the real ensemble selector, and of one real rebalance round per status with the emitted swaps applied in order through the real replace logic.",
     "DESIGN.md §3 C19", "Input universe bounded as stated; multi-label rules outside the oracle.", "exhaustive enumeration of a bounded configuration universe through the real selector and balancer", 'enum')
